@@ -8,7 +8,6 @@ import (
 	"io"
 	"net/http"
 	"runtime/debug"
-	"strings"
 	"sync"
 	"testing"
 	"testing/synctest"
@@ -170,6 +169,7 @@ type c35Expect struct {
 	body    []byte // payloads of the complete DATA frames delivered before the end
 	partial []byte // bytes of a final DATA payload cut by FIN (a prefix may be delivered)
 	end     string // "eof", "frame-error" (required), "open"
+	tag     string // which frame was cut (signature suffix)
 	why     string
 }
 
@@ -218,11 +218,15 @@ func c35RefStream(b []byte, headSection []byte) []c35Expect {
 				// Frame payload cut by FIN.
 				switch {
 				case t == c35TypeData && inBody:
-					emit(c35Expect{msg: true, partial: b[start:], end: "frame-error", why: "DATA payload cut by FIN"})
-				case t == c35TypeHeaders:
-					emit(c35Expect{msg: inBody, end: "frame-error", why: "HEADERS payload cut by FIN"})
+					emit(c35Expect{msg: true, partial: b[start:], end: "frame-error", tag: "DATA", why: "DATA payload cut by FIN"})
+				case t == c35TypeHeaders && !inBody:
+					emit(c35Expect{end: "frame-error", tag: "head-HEADERS", why: "payload of the first HEADERS frame cut by FIN"})
+				case t == c35TypeHeaders && inBody:
+					emit(c35Expect{msg: true, end: "frame-error", tag: "trailer-HEADERS", why: "payload of the trailer HEADERS frame cut by FIN"})
+				case !c35IsKnown(t) && !c35IsH2Reserved(t) && !inBody:
+					emit(c35Expect{end: "frame-error", tag: "unknown-frame-before-head", why: "payload of an unknown frame in front of the message head cut by FIN"})
 				case !c35IsKnown(t) && !c35IsH2Reserved(t):
-					emit(c35Expect{msg: inBody, end: "frame-error", why: "unknown frame's payload cut by FIN"})
+					emit(c35Expect{msg: true, end: "frame-error", tag: "unknown-frame-in-body", why: "payload of an unknown frame after the message head cut by FIN"})
 				default:
 					emit(c35Expect{msg: inBody, msgOpen: !inBody, end: "open", why: "forbidden or reserved frame cut by FIN"})
 				}
@@ -387,11 +391,13 @@ func c35ErrClass(err error) string {
 func c35Write(qs *quic.Stream, b []byte, bytewise bool) error {
 	if bytewise {
 		for i := range b {
+			// The peer may already have made up its mind and sent STOP_SENDING
+			// (e.g. it refused the message): then there is nothing more to send.
 			if _, err := qs.Write(b[i : i+1]); err != nil {
-				return err
+				return nil
 			}
 			if err := qs.Flush(); err != nil {
-				return err
+				return nil
 			}
 			synctest.Wait()
 		}
@@ -597,7 +603,7 @@ func c35Match(e c35Expect, o *c35Obs) (string, string) {
 			return "truncated/reported-as-clean-end", "a frame payload cut by FIN must not look like a clean end of body"
 		}
 		if !o.sawFrameError() {
-			return "truncated/not-frame-error:" + strings.ReplaceAll(strings.SplitN(e.why, " payload", 2)[0], " ", "-"), "a frame payload cut by FIN must surface as H3_FRAME_ERROR (body error, RoundTrip error, stream reset code or connection close code)"
+			return "truncated/not-frame-error:" + e.tag, "a frame payload cut by FIN must surface as H3_FRAME_ERROR (body error, RoundTrip error, stream reset code or connection close code)"
 		}
 	}
 	return "", ""
@@ -686,20 +692,26 @@ func c35RunCtl(c *vx.Ctx, x c35CtlCase) *c35Obs {
 		} else {
 			qconn = newTestClientConn(t).qconn
 		}
+		// fail records a harness error unless the implementation has already
+		// closed the connection (then there is simply nothing more to send).
+		fail := func(what string, err error) bool {
+			if cerr := qconn.Wait(canceledCtx); errors.Is(cerr, context.Canceled) {
+				o.harnessErr = what + ": " + err.Error()
+				return false
+			}
+			return true
+		}
 		open := func() bool {
 			qs, err := qconn.NewSendOnlyStream(canceledCtx)
 			if err != nil {
-				o.harnessErr = "NewSendOnlyStream: " + err.Error()
-				return false
+				return fail("NewSendOnlyStream", err)
 			}
 			qs.SetWriteContext(canceledCtx)
 			if _, err := qs.Write(x.bytes()); err != nil {
-				o.harnessErr = "write: " + err.Error()
-				return false
+				return fail("write", err)
 			}
 			if err := qs.Flush(); err != nil {
-				o.harnessErr = "flush: " + err.Error()
-				return false
+				return fail("flush", err)
 			}
 			if x.Fin {
 				qs.CloseWrite()
@@ -739,13 +751,19 @@ func c35CheckCtl(w *vx.W, x c35CtlCase) {
 	desc := fmt.Sprintf("%s under test, peer opens a %s stream and sends %x (frames %v, fin=%v, second stream of the type=%v): connection %s", x.Side, x.SType, x.bytes(), x.Seq, x.Fin, x.Dup, got)
 	if x.SType == "control" && !x.Dup {
 		// skip clause, metamorphic: the unknown frames change nothing.
+		// (Not in front of the first frame, which must be SETTINGS, and not
+		// where a SETTINGS frame that runs past its end would eat them.)
 		var reduced []string
-		for _, k := range x.Seq {
-			if !c35IsUnknownCtl(k) {
+		overrun := false
+		for i, k := range x.Seq {
+			if i == 0 || !c35IsUnknownCtl(k) {
 				reduced = append(reduced, k)
 			}
+			if k == "Sover" || k == "Sover8" || k == "Sodd" {
+				overrun = true
+			}
 		}
-		if len(reduced) != len(x.Seq) {
+		if len(reduced) != len(x.Seq) && !overrun {
 			y := x
 			y.Seq = reduced
 			o2 := c35RunCtl(c, y)
@@ -787,7 +805,7 @@ func c35CheckCtl(w *vx.W, x c35CtlCase) {
 
 func TestVerif_C35(t *testing.T) {
 	vx.Run(t, "C35", func(c *vx.Ctx) {
-		c.Rule("stream part: frame sequences over {HEADERS(valid head), HEADERS(trailers), DATA of 0/1/5 bytes, unknown types 0x21 / 0x40 / 0x1f*2^56+0x21, SETTINGS, GOAWAY, PUSH_PROMISE (thorough: + CANCEL_PUSH, MAX_PUSH_ID), HTTP/2-reserved types 0x02 0x09 (thorough: + 0x06 0x08)}: every sequence of length <= 2, every sequence of length 3 (thorough: 4) that starts with the head or with an unknown frame followed by the head; each with frame lengths encoded minimally and as 8-byte varints, and the stream FIN at EVERY byte offset of the encoded sequence; sequences of length <= 2 also delivered one byte per packet; played against the real server (request stream) and the real client (response stream of a RoundTrip) by a raw QUIC peer. control part: stream type in {control, push, QPACK encoder, QPACK decoder, reserved 0x21, 2-byte unknown, truncated varint} x every sequence of <= 2 (thorough: 3) control frames from a 23-entry alphabet (SETTINGS variants incl. duplicate / reserved HTTP/2 identifiers / content running past the frame, DATA, HEADERS, GOAWAY, CANCEL_PUSH, MAX_PUSH_ID, PUSH_PROMISE, unknown, HTTP/2-reserved) x {open, FIN} and a duplicate stream of the type, against server and client. non-trivial = the case ran to quiescence and the delivered body bytes, end-of-body error, stream reset code and connection close code were compared with the reference frame parser")
+		c.Rule("stream part: frame sequences over {HEADERS(valid head), HEADERS(trailers), DATA of 0/1/5 bytes, unknown types 0x21 / 0x40 / 0x1f*2^56+0x21, SETTINGS, GOAWAY, PUSH_PROMISE (thorough: + CANCEL_PUSH, MAX_PUSH_ID), HTTP/2-reserved types 0x02 0x09 (thorough: + 0x06 0x08)}: every sequence of length <= 2, every sequence of length 3 (thorough: 4) that starts with the head or with an unknown frame followed by the head; each with frame lengths encoded minimally and as 8-byte varints (quick: 8-byte only for sequences of <= 2 frames), and the stream FIN at EVERY byte offset of the encoded sequence; sequences of length <= 2 also delivered one byte per packet; played against the real server (request stream) and the real client (response stream of a RoundTrip) by a raw QUIC peer. control part: stream type in {control, push, QPACK encoder, QPACK decoder, reserved 0x21, 2-byte unknown, truncated varint} x every sequence of <= 2 (thorough: 3) control frames from a 23-entry alphabet (SETTINGS variants incl. duplicate / reserved HTTP/2 identifiers / content running past the frame, DATA, HEADERS, GOAWAY, CANCEL_PUSH, MAX_PUSH_ID, PUSH_PROMISE, unknown, HTTP/2-reserved) x {open, FIN} and a duplicate stream of the type, against server and client. non-trivial = the case ran to quiescence and the delivered body bytes, end-of-body error, stream reset code and connection close code were compared with the reference frame parser")
 		c.Assume("left open (recorded as outcomes, not judged): the error code used to refuse a message that does not start with HEADERS or contains a forbidden frame, HTTP/2-reserved frame types (skip or refuse), a frame *header* cut by FIN, FIN on a control stream, which of H3_FRAME_ERROR-carrying places reports a truncation (body Read error, RoundTrip error, stream reset code, connection close code all count)")
 		c.Assume("the QUIC layer delivers stream bytes and FIN faithfully (C19/C20); the in-memory network is loss-free")
 
@@ -800,6 +818,9 @@ func TestVerif_C35(t *testing.T) {
 			for _, side := range []string{"server", "client"} {
 				emitSeq := func(seq []string) bool {
 					for _, len8 := range []bool{false, true} {
+						if len8 && len(seq) > 2 && c.Quick() {
+							continue
+						}
 						x := c35StreamCase{Side: side, Seq: seq, Len8: len8}
 						n := len(x.bytes())
 						for fin := 0; fin <= n; fin++ {
